@@ -61,6 +61,18 @@ CHECKS["C14"] = ("exploration",
     "state carried between directives is exercised.",
     "glibc vsnprintf as reference; x86-64 LP64 (l, ll, z, t, j all 64 bit)", "DESIGN.md C14")
 
+CHECKS["C13"] = ("exploration",
+    "differential testing of qb_log_target_format against an independent reference formatter with exact-size heap "
+    "buffers under ASan; real log calls (empty/over-long/extended-marker messages) to custom + file targets with a "
+    "liveness probe",
+    "Every generated (format, limit, ellipsis, call site, message) is formatted into a heap block of exactly the "
+    "line limit and compared with a reference written from qblog.h; hostile formats and limits are judged for "
+    "memory safety and termination; the calls driver checks delivery, message text, file line and that the logger "
+    "is still alive afterwards.",
+    "reference semantics where qblog.h is silent are taken from tests/check_log.c ('-' = right aligned) or not "
+    "judged (unknown directives, squeezed right-aligned field at the limit, newline inside a truncated line)",
+    "DESIGN.md C13")
+
 REASON_PENDING = "check not registered yet in this revision (implementation in progress, see DESIGN.md section 7)"
 
 
